@@ -330,4 +330,31 @@ have any" -/
 def httpTrailersFeedback (ct : String) (trailerKeys : Nat) : Bool :=
   !isGrpcContentType ct && trailerKeys > 0
 
+/-! ### which header set `examineWireDetails` hands to `checkGRPCStatus` (gRPC, gRPC-Web without
+an end-stream message in the body) -/
+
+/-- `isTrailersOnlyResponse` (a response was received): no error in the trace, NO TRAILER KEY HAS
+A VALUE (net/http pre-seeds `Response.Trailer` with a nil-valued key for every name announced in a
+`Trailer:` header), no message in the body -/
+def isTrailersOnly (traceErr bodyData : Bool) (tr : Hdrs) : Bool :=
+  !traceErr && tr.all (fun kv => kv.2.isEmpty) && !bodyData
+
+/-- counter-model: any key in `Response.Trailer` counts as a trailer -/
+def isTrailersOnlyByKeys (traceErr bodyData : Bool) (tr : Hdrs) : Bool :=
+  !traceErr && tr.isEmpty && !bodyData
+
+inductive StatusSource where | headers | trailers | none
+  deriving Repr, DecidableEq
+
+/-- the `switch` of `examineWireDetails` for the gRPC content types, no end-stream message found -/
+def statusSource (ct : String) (traceErr bodyData : Bool) (tr : Hdrs) : StatusSource :=
+  if "application/grpc-web".toList.isPrefixOf ct.toList then
+    (if isTrailersOnly traceErr bodyData tr then .headers else .none)
+  else if "application/grpc".toList.isPrefixOf ct.toList then
+    (if isTrailersOnly traceErr bodyData tr then .headers else if tr.length > 0 then .trailers else .none)
+  else .none
+
+/-- trailer names announced in a `Trailer:` header and never sent -/
+def announcedOnly (names : List Bytes) : Hdrs := names.map (fun n => (n, []))
+
 end ConfModel.WireChecks
